@@ -1,6 +1,6 @@
 import Pamqp.Props.TieA.ReplyCodes
 import Pamqp.Props.TieA.ClassMapping
-import Pamqp.Props.TieA.FrameConstants
+import Pamqp.Props.TieA.ConstantValues
 /-!
 # C17 — reply-code exceptions and protocol constants match the specification
 Finite; all obligations are kernel evaluations on the regenerated tables (see TieA.lean).
@@ -30,6 +30,6 @@ theorem C17_code_list :
 /-- frame types 1/2/3/8, frame end 206 and b'\xce', min frame size 4096, header size 7,
 version (0, 9, 1), prefix b'AMQP' -/
 theorem C17_constants : (Spec.constants.all (fun c => Generated.constants.contains c)) = true :=
-  tieA_frame_constants.1
+  tieA_constant_values
 
 end Pamqp.Props
